@@ -56,51 +56,3 @@ Proof. vm_compute. reflexivity. Qed.
 Theorem c06_run_once : forall s, wf_groups s -> rates_ok s -> for_groups check_C06_group s (run_journals s) = true.
 Proof. exact run_passes_C06. Qed.
 Print Assumptions c06_run_once.
-
-(* ---------- the tie to the source: GeneratedCtl.v is re-derived from the Go source on every run (harness gen --out-ctl);
-   the decisions this property rests on, as the code states them today, are the model's ---------- *)
-From Esc Require Import GeneratedCtl proofs.GenCtlAgree proofs.GenCtlAgree_Starve proofs.GenCtlAgree_Decide proofs.GenCtlAgree_Exits proofs.GenCtlAgree_MaxAge.
-
-(* controller.go isScaleOnStarve = scale_on_starve *)
-Theorem c06_src_starve : forall o maxn u k untainted,
-  gen_isScaleOnStarve o maxn u k untainted = scale_on_starve o maxn u k untainted.
-Proof. exact gen_isScaleOnStarve_agree. Qed.
-Print Assumptions c06_src_starve.
-
-(* controller.go scaleOnMaxNodeAge = scale_on_max_age *)
-Theorem c06_src_max_age : forall e o mn untainted tainted,
-  gen_scaleOnMaxNodeAge e o mn untainted tainted = scale_on_max_age e o mn untainted tainted.
-Proof. exact gen_scaleOnMaxNodeAge_agree. Qed.
-Print Assumptions c06_src_max_age.
-
-(* the threshold switch of scaleNodeGroup = decide: leaving the switch with nodesDelta = d is DeltaOk d, reaching
-   calcScaleUpDelta is calc_delta on the arguments the code passes *)
-Theorem c06_src_decide : forall o st cpuP memP us untainted,
-  decide o st cpuP memP (r_cpu (u_total us)) (1000 * r_mem (u_total us)) untainted =
-  match gen_scaleNodeGroup_decide o cpuP memP us untainted with
-  | GFall [GI d] => DeltaOk d
-  | GCall _ [GL l; GF c; GF m; GI cr; GI mr] => calc_delta (zlen l) c m cr mr (o_up o) (fst (g_cache st)) (snd (g_cache st))
-  | _ => DeltaErr 0
-  end.
-Proof. exact gen_scaleNodeGroup_decide_agree. Qed.
-Print Assumptions c06_src_decide.
-
-(* the early exits of scaleNodeGroup (no nodes and no pods; node count below min / above max) are scan_group's: where the
-   code returns, the model's scan makes no call and returns the same value and error class; where it goes on, so does the scan *)
-Theorem c06_src_exits : forall e o mn maxn st a all_nodes all_pods,
-  let R := scan_group e o mn maxn st a all_nodes all_pods in
-  match gen_scaleNodeGroup_exits mn maxn (group_nodes o all_nodes) (group_pods o all_pods) with
-  | GRet [GI r; GE err] =>
-      r_calls R = [] /\ r_ret R = r /\ r_out R = (if err then OutErr else OutOk) /\ r_asg R = a /\ early_tag (hd 0 (r_tags R)) = true
-  | _ => early_tag (hd 0 (r_tags R)) = false
-  end.
-Proof. exact gen_scan_group_exits. Qed.
-Print Assumptions c06_src_exits.
-
-(* the below-minimum recovery (GenCtlAgree.model_recover): unlocked and fewer untainted nodes than min -> ScaleUp(tainted,
-   min - untainted), the test of scan_group *)
-Theorem c06_src_recover : forall mn locked nodes untainted tainted forced,
-  gen_scaleNodeGroup_recover mn locked nodes untainted tainted forced
-  = model_recover mn locked untainted tainted.
-Proof. exact gen_scaleNodeGroup_recover_agree. Qed.
-Print Assumptions c06_src_recover.
